@@ -222,6 +222,35 @@ func (pc *primChecker) remValid(fn *ssa.Function, site ssa.Instruction, n remNee
 	return true, nil
 }
 
+// remValidFrozen: like remValid for an access whose bounds were computed from the cursor reading ld: every path to
+// the site crosses an edge establishing the need, and the cursor does not move between ld and that edge.
+func (pc *primChecker) remValidFrozen(fn *ssa.Function, site ssa.Instruction, n remNeed, ld *ssa.UnOp) (bool, []*ssa.BasicBlock) {
+	reg := WholeFn(fn)
+	r := *reg
+	r.Cut = func(from, to *ssa.BasicBlock) bool { return pc.establishesRem(from, to, n) }
+	if it, path := r.Reach(Is(site), nil); !it.IsZero() {
+		return false, path
+	}
+	adv := func(it Item) bool { return it.In != nil && pc.isAdvance(it.In) }
+	after := Item{In: ld}.After()
+	for _, b := range fn.Blocks {
+		for _, su := range b.Succs {
+			if !pc.establishesRem(b, su, n) {
+				continue
+			}
+			test := lastInstr(b)
+			for _, a := range reg.From(after).Find(adv) {
+				if hit, path := reg.From(a.After()).Reach(Is(test), nil); !hit.IsZero() {
+					if pre, _ := reg.From(after).Reach(IsItem(a), Is(test)); !pre.IsZero() {
+						return false, path
+					}
+				}
+			}
+		}
+	}
+	return true, nil
+}
+
 // fromCallSites: v is a parameter of a private helper of the decoder; the cursor does not move between the
 // helper's entry and the site, and every call site of the helper passes an argument for which
 // remaining() ≥ arg is validly established at the call.
@@ -544,6 +573,35 @@ func c10Prim(c *Ctx) {
 						hb, ok := x.High.(*ssa.BinOp)
 						if ok && hb.Op == token.ADD && off(hb.X) {
 							ok2, path := pc.remValid(fn, x, remNeed{v: hb.Y})
+							if !ok2 {
+								// start and end were computed from ONE earlier reading of the cursor (`start, end := off,
+								// off+n`): what the cursor does after the bound test does not matter, what matters is that it
+								// did not move between that reading and the test
+								ld, isLd := x.Low.(*ssa.UnOp)
+								ld2, isLd2 := hb.X.(*ssa.UnOp)
+								sameReading := isLd && isLd2 && ld.Block() == ld2.Block()
+								if sameReading && ld != ld2 {
+									// two readings of the cursor with nothing that moves it in between
+									in := false
+									for _, i := range ld.Block().Instrs {
+										if i == ssa.Instruction(ld) || i == ssa.Instruction(ld2) {
+											if in {
+												break
+											}
+											in = true
+											continue
+										}
+										if in && pc.isAdvance(i) {
+											sameReading = false
+										}
+									}
+								}
+								if sameReading {
+									if ok3, _ := pc.remValidFrozen(fn, x, remNeed{v: hb.Y}, ld); ok3 {
+										ok2, path = true, nil
+									}
+								}
+							}
 							report(ok2, "slice:raw[off:off+n]", x, remNeed{v: hb.Y}, hb.Y, path, "")
 						} else {
 							c.Fail(rule, fn, "slice:unrecognised", x, "unrecognised slice of rd.raw", nil)
